@@ -11,7 +11,7 @@ git apply $cand/patch.diff || { echo "APPLY-FAILED" > $cand/confirm/result.txt; 
 cargo build --offline > $cand/confirm/build.log 2>&1 || { echo "BUILD-FAILED" > $cand/confirm/result.txt; git checkout -q -- .; exit 1; }
 ( RUST_BACKTRACE=0 bash $cand/demo.sh ) > $cand/confirm/demo_patched.txt 2>&1
 RUST_BACKTRACE=0 cargo test --workspace --no-fail-fast --offline > $cand/confirm/test.log 2>&1
-python3 /tmp/wt/baseline_cmp.py $cand/confirm/test.log > $cand/confirm/tests.txt 2>&1
+python3 /verif/tools/baseline_cmp.py $cand/confirm/test.log > $cand/confirm/tests.txt 2>&1
 git checkout -q -- . ; git clean -qfd -e target >/dev/null 2>&1
 if grep -q "stable_pass not passing now: 0" $cand/confirm/tests.txt; then
   if cmp -s $cand/confirm/demo_unpatched.txt $cand/confirm/demo_patched.txt; then echo "DEMO-SAME" > $cand/confirm/result.txt; else echo "CONFIRMED" > $cand/confirm/result.txt; fi
